@@ -169,12 +169,12 @@ impl<M: Math> LowRankMassMatrix<M> {
         vals: Col<f64>,
         vecs: Mat<f64>,
         mean_low_rank: Col<f64>,
-    ) {
+    ) -> bool {
         if (!col_all_finite(&stds.as_ref())) | (!col_all_finite(&mean.as_ref())) {
-            return;
+            return false;
         }
         if (!col_all_finite(&vals.as_ref())) | (!mat_all_finite(&vecs.as_ref())) {
-            return;
+            return false;
         }
 
         let mut stds_array = math.new_array();
@@ -187,6 +187,7 @@ impl<M: Math> LowRankMassMatrix<M> {
         self.logdet = inner.logdet() + self.diag.logdet();
         self.inner = Some(inner);
         self.id += 1;
+        true
     }
 }
 
